@@ -202,7 +202,8 @@ class MCNP_Lexer(Lexer):
     e.g.: ``lwtr.20t``. 
     """
 
-    @_(r"[+\-]?\d+(?!e)[a-z]+")
+    # the guard keeps exponents (1e5, 1e+5) out; a trailing e that starts no exponent (elib=03e) is a letter
+    @_(r"[+\-]?\d+(?!e[+\-]?\d)[a-z]+")
     def NUMBER_WORD(self, t):
         """
         An integer followed by letters.
